@@ -66,6 +66,7 @@ func (x *Exec) verifyFunc(fn *ssa.Function, c *FuncContract) (err error) {
 		}
 	}()
 	x.unitFn = fn
+	x.cutArr, x.cutSpec, x.cutDone = map[*ssa.Call][]workItem{}, map[*ssa.Call]*CutSpec{}, map[*ssa.Call]bool{}
 	st := &State{cells: map[*Cell]Value{}, heaps: map[string]string{}, wf: map[string]bool{}, held: map[string]string{}, ghost: map[string]Value{}}
 	x.alloc0 = x.d.constant("alloc0", sInt)
 	st.alloc = x.alloc0
@@ -86,6 +87,7 @@ func (x *Exec) verifyFunc(fn *ssa.Function, c *FuncContract) (err error) {
 	}
 	// a closure verified as a unit: its captured variables are arbitrary
 	var binds []Value
+	fvCells := map[string]*Cell{}
 	for _, fv := range fn.FreeVars {
 		pt := pointee(fv.Type())
 		if pt == nil {
@@ -99,6 +101,7 @@ func (x *Exec) verifyFunc(fn *ssa.Function, c *FuncContract) (err error) {
 		}
 		binds = append(binds, Value{K: KPtr, T: fv.Type(), B: BCell, Cell: cell})
 		names[fv.Name()] = cv
+		fvCells[fv.Name()] = cell
 	}
 	// ledger 5: distinct slice parameters do not share a region (unless both nil)
 	for i := 0; i < len(sliceRids); i++ {
@@ -123,6 +126,72 @@ func (x *Exec) verifyFunc(fn *ssa.Function, c *FuncContract) (err error) {
 	for _, r := range c.Requires {
 		x.assumeLocked(st, env, r.E)
 		st.assume(env.evalBool(r.E))
+	}
+	// callback unit: pre() in an iteration invariant denotes the state at the call that
+	// started the iteration: an arbitrary earlier state P (own heaps, own captured values)
+	var preSt *State
+	var preNames map[string]Value
+	if len(c.IterInv) > 0 {
+		preNames = map[string]Value{}
+		for k, v := range names {
+			preNames[k] = v
+		}
+		pcells := map[*Cell]Value{}
+		for n, cell := range fvCells {
+			pv := x.symbolic(st, cell.T, "P."+n)
+			pcells[cell] = pv
+			preNames[n] = pv
+		}
+		preSt = st.clone()
+		preSt.heaps = map[string]string{}
+		preSt.heapPfx = "$P"
+		for cell, pv := range pcells {
+			preSt.cells[cell] = pv
+		}
+		env.pre, env.preNames = preSt, preNames
+	}
+	// iteration invariants of a callback hold before every invocation.  Each sits behind
+	// a fresh Boolean guard so that the preservation proof of one invariant can leave the
+	// others (deep quantified facts it does not need) switched off: a guard occurs only
+	// as the antecedent of its invariant, so asserting it false is the same as dropping
+	// that hypothesis
+	invGuards := map[string]string{}
+	firstObl := len(x.obls)
+	for _, r := range c.IterInv {
+		g := x.d.fresh("inv."+sanitize(r.Label), sBool)
+		invGuards[r.Label] = g
+		st.assume(mkImp(g, env.evalBool(r.E)))
+	}
+	if len(invGuards) > 0 {
+		defer func() {
+			for _, o := range x.obls[firstObl:] {
+				if o.Hyps == nil {
+					continue
+				}
+				on := map[string]bool{}
+				sliced := false
+				if o.Kind == "iter-keep" {
+					for _, r := range c.IterInv {
+						if r.Label == o.Label && r.Needs != nil {
+							sliced = true
+							on[r.Label] = true
+							for _, n := range r.Needs {
+								on[n] = true
+							}
+						}
+					}
+				}
+				hy := append([]string(nil), o.Hyps...)
+				for _, r := range c.IterInv {
+					if !sliced || on[r.Label] {
+						hy = append(hy, invGuards[r.Label])
+					} else {
+						hy = append(hy, mkNot(invGuards[r.Label]))
+					}
+				}
+				o.Hyps = hy
+			}
+		}()
 	}
 	if x.boundedRun {
 		for _, b := range c.Bounded {
@@ -160,6 +229,20 @@ func (x *Exec) verifyFunc(fn *ssa.Function, c *FuncContract) (err error) {
 			o.st.assume(lem)
 		}
 		penv := &SpecEnv{x: x, st: o.st, old: x.entry, names: names, pkg: fn.Pkg.Pkg, results: o.results, sig: fn.Signature, witFr: o.fr}
+		if len(fvCells) > 0 {
+			// captured variables denote their current values in the post-state, their entry values under old()
+			pn := map[string]Value{}
+			for k, v := range names {
+				pn[k] = v
+			}
+			for n, cell := range fvCells {
+				if cv, ok := o.st.cells[cell]; ok {
+					pn[n] = cv
+				}
+			}
+			penv.names, penv.oldNames = pn, names
+			penv.pre, penv.preNames = preSt, preNames
+		}
 		for _, e := range c.Ensures {
 			if strings.HasPrefix(e.Label, "assumed-") {
 				// clause-level trust: used at call sites, not checked here (listed in the evidence)
@@ -180,8 +263,32 @@ func (x *Exec) verifyFunc(fn *ssa.Function, c *FuncContract) (err error) {
 			}
 			x.oblige(o.st, "post", e.Label, penv.evalBool(e.E), fn.Pos())
 		}
+		for _, e := range c.IterInv {
+			if !x.boundedRun {
+				x.oblige(o.st, "iter-keep", e.Label, penv.evalBool(e.E), fn.Pos())
+			}
+		}
 		if c.HasAssign {
 			x.frameObligations(o.st, penv, c, fn)
+			if fn.Parent() != nil && len(fvCells) > 0 {
+				// a callback's frame composes over invocations only if its targets stay
+				// put or move to fresh objects
+				oe := penv.with(x.entry)
+				oe.names = names
+				for _, a := range c.Assigns {
+					switch a.Kind {
+					case "elems", "region":
+						nv, ov := penv.eval(a.E), oe.eval(a.E)
+						if nv.K == KSlice && ov.K == KSlice {
+							x.oblige(o.st, "iter-stable", a.Src, mkOr(mkEq(nv.Rid, ov.Rid), mkCmp(">=", nv.Rid, "alloc0"), mkEq(nv.Rid, "0")), fn.Pos())
+						}
+					case "field":
+						nr, _ := x.objectOf(penv.eval(a.E))
+						or, _ := x.objectOf(oe.eval(a.E))
+						x.oblige(o.st, "iter-stable", a.Src, mkOr(mkEq(nr, or), mkCmp(">=", nr, "alloc0")), fn.Pos())
+					}
+				}
+			}
 		}
 		x.obls = append(x.obls, &Obligation{Name: fmt.Sprintf("%s#cover:return@%d", x.unit, nret), Unit: x.unit, Kind: "cover", Label: "return", Hyps: o.st.pcList(), Goal: tTrue, Cover: true})
 	}
@@ -243,11 +350,7 @@ func (x *Exec) frameObligations(st *State, env *SpecEnv, c *FuncContract, fn *ss
 func (x *Exec) globalAxioms() []string {
 	var ax []string
 	ax = append(ax, x.axioms...)
-	for _, la := range x.lateAxioms {
-		if x.d.seen[la.heap] {
-			ax = append(ax, la.term) // typing facts of the entry heaps
-		}
-	}
+	// (typing facts of the entry heaps are added per VC, only for heaps the VC mentions)
 	if len(x.sentinels) > 1 {
 		ax = append(ax, "(distinct "+strings.Join(x.sentinels, " ")+")")
 	}
@@ -351,6 +454,13 @@ func (x *Exec) writeVCs(dir string, pkg *types.Package) ([]string, error) {
 	}
 	header := sb.String()
 	var files []string
+	memo := map[string]string{}
+	ann := func(t string) string {
+		if os.Getenv("GOVC_NOPAT") != "" {
+			return t
+		}
+		return annotateQuantifiers(t, memo)
+	}
 	for i, o := range x.obls {
 		if o.Goal == tTrue && !o.Cover {
 			files = append(files, "")
@@ -359,11 +469,27 @@ func (x *Exec) writeVCs(dir string, pkg *types.Package) ([]string, error) {
 		var b strings.Builder
 		b.WriteString("; " + o.Name + "\n")
 		b.WriteString(header)
+		// typing facts of the entry heaps this VC speaks about
+		for _, la := range x.lateAxioms {
+			if !x.d.seen[la.heap] {
+				continue
+			}
+			used := strings.Contains(o.Goal, la.heap)
+			for _, h := range o.Hyps {
+				if used {
+					break
+				}
+				used = strings.Contains(h, la.heap)
+			}
+			if used {
+				b.WriteString("(assert " + la.term + ") ; wf\n")
+			}
+		}
 		for _, h := range o.Hyps {
-			b.WriteString("(assert " + h + ")\n")
+			b.WriteString("(assert " + ann(h) + ")\n")
 		}
 		if !o.Cover {
-			b.WriteString("(assert (not " + o.Goal + "))\n")
+			b.WriteString("(assert (not " + ann(o.Goal) + "))\n")
 		}
 		b.WriteString("(check-sat)\n")
 		if !o.Cover {
